@@ -95,13 +95,22 @@ def run(ck):
     ck.ob("C17-R2", "Token::text/bounded-copy", bool(cons), tok.loc, tok, "std::string(gptr, size())")
 
     add = lib.single(prog, H + "CookieJar::add")
-    muts = [e for e in add.calls(lambda e: lib.is_stl_mutation(e) and ((e.get("recv") or {}).get("f") or "").endswith("CookieJar::cookies") or
-                                 (lib.is_stl_mutation(e) and "second" in ((e.get("recv") or {}).get("t") or "")) or (lib.is_stl_mutation(e) and (e.get("recv") or {}).get("v") == "hashmapWithFirstCookie"))]
+    # every way CookieJar::add puts something into its (nested) maps keeps what is already there: insert / emplace / try_emplace, or
+    # operator[] used as get-or-create; never `m[k] = v` / insert_or_assign / erase-then-insert
+    muts = [e for e in add.calls(lambda e: lib.is_stl_mutation(e) and lib.is_assoc_call(e))]
+    def keepfirst(e):
+        nm = e.base_callee().rsplit("::", 1)[1]
+        return nm in ("insert", "emplace", "try_emplace", "emplace_hint") or (nm == "operator[]" and not lib.is_subscript_store(add, e))
     names = sorted({e.base_callee().rsplit("::", 1)[1] for e in muts})
-    ck.ob("C17-R3", "CookieJar::add/keyed-insert", names == ["insert"], add.loc, add, "stores with %s" % names)
+    ck.ob("C17-R3", "CookieJar::add/keyed-insert", bool(muts) and all(keepfirst(e) for e in muts), add.loc, add, "stores with %s" % names)
     hs = lib.single(prog, H + "Private::HeadersStep::apply")
-    d = cfg.dominators(hs)
-    clr = [e for e in hs.calls(lambda e: (e.get("callee") or "") == H + "CookieJar::removeAllCookies")]
-    afr = [e for e in hs.calls(lambda e: (e.get("callee") or "") == H + "CookieJar::addFromRaw")]
-    ok = bool(clr) and bool(afr) and all(cfg.ev_dominates(d, clr[0], a) and a.block == clr[0].block for a in afr)
+    # in the step itself or in the private helper of the step that handles the cookie headers
+    hreg = lib.region(prog, hs, within=lambda g_: g_.cls == hs.cls and g_.cls)
+    afr = [e for g_ in hreg for e in g_.calls(lambda e: (e.get("callee") or "") == H + "CookieJar::addFromRaw")]
+    ok = bool(afr)
+    for a in afr:
+        g_ = a.func
+        d = cfg.dominators(g_)
+        clr = [e for e in g_.calls(lambda e: (e.get("callee") or "") == H + "CookieJar::removeAllCookies")]
+        ok = ok and bool(clr) and cfg.ev_dominates(d, clr[0], a) and a.block == clr[0].block
     ck.ob("C17-R3", "HeadersStep/jar-cleared-before-readd", ok, afr[0].loc if afr else hs.loc, hs, "removeAllCookies() immediately precedes addFromRaw()")
